@@ -702,7 +702,11 @@ func archiveDevs() []Dev {
 		"tar-truncated-header", gzOf(rawTar.Bytes()[:300]),
 		"tar-truncated-body", gzOf(rawTar.Bytes()[:600]),
 		"tar-bad-checksum", gzOf(func() []byte { b := append([]byte{}, rawTar.Bytes()...); b[150] ^= 0xff; return b }()),
-		"tar-size-huge", gzOf(func() []byte { b := append([]byte{}, rawTar.Bytes()...); copy(b[124:136], []byte("77777777777\x00")); return b }()),
+		"tar-size-huge", gzOf(func() []byte {
+			b := append([]byte{}, rawTar.Bytes()...)
+			copy(b[124:136], []byte("77777777777\x00"))
+			return b
+		}()),
 		"no-entries", buildTgz(nil),
 		"only-dirs", buildTgz([]tarEntry{{hdr: tar.Header{Name: "p/", Typeflag: tar.TypeDir, Mode: 0o755}}, {hdr: tar.Header{Name: "p/templates/", Typeflag: tar.TypeDir, Mode: 0o755}}}),
 		"no-chartyaml", buildTgz(min[1:]),
@@ -923,7 +927,12 @@ func provDevs() []Dev {
 		"secret-key", string(testSecret),
 		"half", string(testPub[:len(testPub)/2]),
 		"twice", string(testPub)+string(testPub),
-		"corrupt", func() string { b := append([]byte{}, testPub...); b[len(b)/3] ^= 0xff; b[len(b)/2] ^= 0xff; return string(b) }(),
+		"corrupt", func() string {
+			b := append([]byte{}, testPub...)
+			b[len(b)/3] ^= 0xff
+			b[len(b)/2] ^= 0xff
+			return string(b)
+		}(),
 		"zeros", string(make([]byte, 512)),
 		"packet-huge-length", "\x99\xff\xff"+string(testPub[3:]),
 		"new-format-huge", "\xc6\xff\xff\xff\xff\xff",
